@@ -86,6 +86,8 @@ pub enum Ev {
     SG(Option<St>),
     Valid(St, bool),
     Sat(St, bool),
+    /// `satisfies_bounds` answered false for this state (true answers are not recorded)
+    OutOfBounds(St),
 }
 impl Ev {
     pub fn kind_byte(&self) -> u8 {
@@ -101,6 +103,7 @@ impl Ev {
             Ev::Valid(_, false) => b'x',
             Ev::Sat(_, true) => b's',
             Ev::Sat(_, false) => b'n',
+            Ev::OutOfBounds(_) => b'o',
         }
     }
     pub fn phase(&self) -> Option<Phase> {
@@ -250,7 +253,17 @@ impl<R: Raw> StateSpace for SimSpace<R> {
         self.inner.enforce_bounds(s)
     }
     fn satisfies_bounds(&self, s: &Self::StateType) -> bool {
-        self.inner.satisfies_bounds(s)
+        let ans = self.inner.satisfies_bounds(s);
+        if !ans {
+            CTX.with(|c| {
+                if let Some(c) = c.borrow_mut().as_mut() {
+                    c.log.push(Ev::OutOfBounds(enc_of::<R>(s)));
+                    let now = c.now;
+                    c.times.push(now);
+                }
+            });
+        }
+        ans
     }
     fn sample_uniform(&self, rng: &mut impl Rng) -> Result<Self::StateType, StateSamplingError> {
         let (fault, scripted, cap) = CTX.with(|c| {
@@ -522,7 +535,7 @@ impl Outcome {
             match e {
                 Ev::Call(i) | Ev::Ret(i) => h.u64(*i as u64),
                 Ev::Clock(t) => h.u64(*t),
-                Ev::SU(Some(s)) | Ev::SG(Some(s)) | Ev::Valid(s, _) | Ev::Sat(s, _) => {
+                Ev::SU(Some(s)) | Ev::SG(Some(s)) | Ev::Valid(s, _) | Ev::Sat(s, _) | Ev::OutOfBounds(s) => {
                     for x in s {
                         h.f64(*x)
                     }
